@@ -28,6 +28,14 @@ def main():
     meta = json.load(open(os.path.join(seed, 'meta.json')))
     demo = next(f for f in sorted(os.listdir(seed)) if f.startswith(('demo', 'test_demo')) and f.endswith('.py'))
     env = dict(os.environ, PYTHONPATH=wt, PYTHONHASHSEED='0')
+    # the worktree must hold exactly the author's change (agents sharing `git stash` have swapped changes before)
+    want = open(os.path.join(seed, 'patch.diff')).read()
+    _, have = sh('git diff -- billiard', cwd=wt)
+    strip = lambda d: [l for l in d.split('\n') if l.startswith(('+', '-')) and not l.startswith(('+++', '---'))]
+    if strip(want) != strip(have):
+        sh('git checkout -- billiard', cwd=wt)
+        r, o = sh('git apply SEED/patch.diff', cwd=wt)
+        print('worktree did not hold the recorded patch: reset and re-applied (rc=%s)' % r)
     runner = ('/venv/bin/python -m pytest -q -p no:cacheprovider --timeout=120 SEED/%s' % demo) if demo.startswith('test_') \
         else ('timeout -s KILL 120 /venv/bin/python -u SEED/%s' % demo)
     ran = []
@@ -36,11 +44,13 @@ def main():
     fails_with = 'rc=0' not in out_with.split('\n')[-2:][0] and 'rc=0' not in out_with[-10:]
     ran.append(dict(cmd='demo with change', fails=fails_with, tail=out_with[-300:]))
     _, patch = sh('git diff -- billiard', cwd=wt)
-    sh('git stash -q -- billiard', cwd=wt)
+    open('/tmp/seed_patch_%d.diff' % os.getpid(), 'w').write(patch)
+    sh('git apply -R /tmp/seed_patch_%d.diff' % os.getpid(), cwd=wt)
     rc_wo, out_wo = sh(runner + ' > /tmp/seed_demo.out 2>&1; echo rc=$?', cwd=wt, env=env)
     passes_without = 'rc=0' in out_wo[-10:]
     ran.append(dict(cmd='demo without change', passes=passes_without, tail=open('/tmp/seed_demo.out').read()[-300:]))
-    sh('git stash pop -q', cwd=wt)
+    sh('git apply /tmp/seed_patch_%d.diff' % os.getpid(), cwd=wt)
+    os.remove('/tmp/seed_patch_%d.diff' % os.getpid())
     _, tests = sh('timeout -s KILL 600 /venv/bin/python -m pytest -q -p no:cacheprovider --timeout=300 t/unit > /tmp/seed_tests.out 2>&1; tail -3 /tmp/seed_tests.out',
                   cwd=wt, env=env)
     ran.append(dict(cmd='unit tests with change', tail=tests[-300:]))
